@@ -13,6 +13,7 @@ import (
 // NewTaskForVerif builds a Task the way the manager does after a launch, without Mesos:
 // name/ids/host given, class fixed, no parent yet (use SetParent).
 func NewTaskForVerif(name, taskId, hostname string, class *taskclass.Class) *Task {
+	value := "verif"
 	return &Task{
 		name:         name,
 		className:    class.Identifier.String(),
@@ -23,6 +24,6 @@ func NewTaskForVerif(name, taskId, hostname string, class *taskclass.Class) *Tas
 		hostname:     hostname,
 		properties:   gera.MakeMap[string, string](),
 		GetTaskClass: func() *taskclass.Class { return class },
-		commandInfo:  &common.TaskCommandInfo{},
+		commandInfo:  &common.TaskCommandInfo{CommandInfo: common.CommandInfo{Value: &value}},
 	}
 }
